@@ -464,6 +464,22 @@ def DDatanhee2Loop (E : Ell α) (dx dy : α) : Nat → DD2St α → α
     else if st.nsmall + 1 == 2 then s
     else DDatanhee2Loop E dx dy fuel ⟨m + 1, xy, yy, ee, s, st.nsmall + 1⟩
 
+/-- the termination rule of `DDatanhee2` before 9562c37 (finding F61), kept as a counter-model: the loop stopped at the *first*
+    negligible term -/
+def DDatanhee2LoopOld (E : Ell α) (dx dy : α) : Nat → DD2St α → α
+  | 0, st => st.s
+  | fuel + 1, st =>
+    let m := st.m
+    let yy := st.yy * dy
+    let xy := dx * st.xy + yy
+    let ee := st.ee / (-E.e2m)
+    let ee := if m % 2 == 0 then ee * E.e2 else ee
+    let t := dd2Coef E.e2 m
+    let ds := t * ee * xy / RealLike.ofNat (m + 2)
+    let s := st.s + ds
+    if !(RealLike.ltb (RealLike.abs s * (eps : α) / 2) (RealLike.abs ds)) then s
+    else DDatanhee2LoopOld E dx dy fuel ⟨m + 1, xy, yy, ee, s, 0⟩
+
 /-- `DDatanhee2` (series in `1 − x`, `1 − y`) -/
 def DDatanhee2 (E : Ell α) (x y : α) : α :=
   let ee := E.e2 / sq E.e2m
